@@ -378,7 +378,7 @@ impl Property for C16 {
     type Case = Case;
     const ID: &'static str = "C16";
     fn cases(tier: Tier) -> u64 {
-        tier.pick(6_000, 150_000)
+        tier.pick(16_000, 250_000)
     }
     fn strategy(tier: Tier) -> BoxedStrategy<Case> {
         let n = tier.pick(150usize, 250usize);
